@@ -82,6 +82,11 @@ def run(tier, seed, replay):
     tie = {"services": {n_: {"constructor": "NewA", "arguments": [n_], "tags": [{"name": "tie", "priority": p_}]} for n_, p_ in [("zeta", 1), ("alpha", 1), ("mid", 1), ("beta", 5), ("Alpha", 1), ("a10", 1), ("a9", 1)]},
            "decorators": [{"tag": "tie", "decorator": "Decorate", "arguments": ["first", 1]}, {"tag": "tie", "decorator": "Decorate", "arguments": ["second", 2]}, {"tag": "tie", "decorator": "Wrap", "arguments": []},
                           {"tag": "tie", "decorator": "Decorate", "arguments": ["third"]}]}
+    tie["parameters"] = {"p": "pv"}
+    tie["services"]["plug1"] = {"constructor": "MakeC", "tags": [{"name": "plugin", "priority": 2}]}
+    tie["services"]["plug2"] = {"constructor": "Build", "tags": ["plugin"]}
+    tie["services"]["host"] = {"constructor": "Provide", "tags": ["hosted"]}
+    tie["decorators"].append({"tag": "hosted", "decorator": "Decorate", "arguments": ["!tagged plugin", "@plug1", "$gontainer", "!value Value", "%p%", "x %p% y", 5, None]})
     sp = common.mk_spec(len(specs), [tie], keep_out=True)
     sp["cfg"] = tie
     sp["what"] = ["tie-break-and-repeated-decorator"]
